@@ -143,6 +143,7 @@ class Result(object):
         self.units = {}
         self.rules = []
         self.floors = {}
+        self.floor_failures = []
         self.notes = []
         self.explanation = ""
         self.assumptions = []
@@ -154,9 +155,11 @@ class Result(object):
         """Instance floor: fewer than confirmed by hand is an analysis error."""
         self.floors[what] = {"found": got, "floor": minimum}
         if got < minimum:
-            raise AnalysisError("instance floor: %s found %d < %d (anchor "
-                                "vanished or recogniser out of date)"
-                                % (what, got, minimum))
+            # decided in finish(): a violation found by the rules that did
+            # match takes precedence over the missing instances
+            self.floor_failures.append(
+                "instance floor: %s found %d < %d (anchor vanished or "
+                "recogniser out of date)" % (what, got, minimum))
 
     def count(self, rule, n):
         self.instances[rule] = self.instances.get(rule, 0) + n
@@ -173,6 +176,10 @@ def finish(res, tier, seed, t0):
             kf.append((f, k))
         else:
             viol.append(f)
+    if res.floor_failures and not viol:
+        raise AnalysisError("; ".join(res.floor_failures))
+    for ff in res.floor_failures:
+        print("NOTE property=%s %s" % (res.prop, ff))
     os.makedirs(os.path.join(VERIF, "replays"), exist_ok=True)
     for f, k in kf:
         print("KNOWN-FINDING: property=%s %s [%s %s %s]" % (
